@@ -582,7 +582,13 @@ class Driver:
             f |= L.RESENT
         return f
 
-    def build(self, st, endpoint, flow) -> Tuple[bytes, int]:
+    def build(self, st, endpoint, flow):
+        if st.get("retransmit_of") is not None:
+            prev = endpoint.sent.get(flow)
+            if not prev:
+                return None, None
+            rec = prev[st["retransmit_of"] % len(prev)]
+            return rec["datagram_resent"], rec["pid"]
         rng = random.Random(st.get("mseed", 0))
         extra = bytes.fromhex(st.get("extra", ""))
         name = st["name"]
@@ -599,11 +605,6 @@ class Driver:
         if name in ("ChatFromViewer", "ChatFromSimulator") and extra:
             nl = L.msgnum_len(body)
             body = body[:nl] + extra + body[nl:]
-        if st.get("retransmit_of") is not None and endpoint.sent.get(flow):
-            prev = endpoint.sent[flow]
-            k = st["retransmit_of"] % len(prev)
-            rec = prev[k]
-            return rec["datagram_resent"], rec["pid"]
         pid = endpoint.alloc_pid(flow)
         nacks = st.get("acks", 0)
         acks = endpoint.pick_acks(flow, nacks, reack=st.get("reack", False)) if nacks else []
@@ -639,6 +640,10 @@ class Driver:
             return
         far = self.far(st)
         dg, _ = self.build(st, v, far)
+        if dg is None:
+            return
+        if st.get("retransmit_of") is not None:
+            self.res.fault("endpoint_retransmit")
         v.send_payload(far, dg, Fate.from_json(st.get("fate")))
 
     def op_ssend(self, st):
@@ -651,6 +656,10 @@ class Driver:
             # a real simulator only answers peers it has heard from
             return
         dg, _ = self.build(st, reg, v.proxy_udp)
+        if dg is None:
+            return
+        if st.get("retransmit_of") is not None:
+            self.res.fault("endpoint_retransmit")
         reg.send_payload(v.proxy_udp, dg, Fate.from_json(st.get("fate")))
 
     def op_vack(self, st):
